@@ -6,6 +6,7 @@ import (
 	"fmt"
 	"os"
 	"path/filepath"
+	"regexp"
 	"runtime/debug"
 	"sort"
 	"strings"
@@ -165,7 +166,8 @@ func (r *Runner) fail(oracle, sig, format string, a ...interface{}) {
 	if r.violated() {
 		return
 	}
-	detail := fmt.Sprintf(format, a...)
+	detail := scrub(fmt.Sprintf(format, a...))
+	sig = scrub(sig)
 	if !r.judging && os.Getenv("VSIM_JUDGE_ALL") == "" {
 		r.Aborted = fmt.Sprintf("step %d: %s: %s", r.step, oracle, detail)
 		return
@@ -217,6 +219,11 @@ func (r *Runner) call(what string, fn func()) bool {
 	}
 	return true
 }
+
+// rootRe matches the per-process scratch roots, which must not leak into signatures (they contain the pid).
+var rootRe = regexp.MustCompile(regexp.QuoteMeta(ScratchBase) + `/vsim-[a-z]*-?[0-9]+(-[0-9]+)?(/i[0-9]+)?`)
+
+func scrub(s string) string { return rootRe.ReplaceAllString(s, "<root>") }
 
 func clip(s string, n int) string {
 	if len(s) > n {
@@ -475,6 +482,14 @@ func (r *Runner) result(idx int, seed uint64, start time.Time) *Result {
 	res := &Result{Idx: idx, Seed: seed, Counters: r.Cnt, Traces: r.Traces, States: r.StateHs,
 		SimNs: vclock.NowNs() - r.clock0, Events: vrt.EventBase, WallUs: time.Since(start).Microseconds()}
 	res.CaseHash = r.C.Hash()
+	if r.FS != nil {
+		h := uint64(14695981039346656037)
+		for i := range r.FS.Journal {
+			e := &r.FS.Journal[i]
+			h = vrt.Mix(h, vrt.HashString(e.String()), e.Ev, uint64(e.Task+1))
+		}
+		res.JournalH = h
+	}
 	switch {
 	case r.Infra != "":
 		res.Outcome = "infra"
